@@ -145,7 +145,8 @@ theorem forall2_atoms_eq : ∀ (vs ks : List Node), Forall2 Shp vs ks → vs.all
       have : inert v = true := by cases v <;> simp_all [isAtomNode, inert]
       rw [h.1.2.2 this, ih ks h.2 ha.2]
 
-theorem propShape_other_atoms (k : String) (sp : Span) (ns' : List String) (vs : List Node) (h : vs.all isAtomNode = true) :
+theorem propShape_other_atoms (k : String) (sp : Span) (ns' : List String) (vs : List Node)
+    (h : (k == "PrivateName" && vs.all isAtomNode) = true) :
     propShape (.other k sp ns' vs) = true := by
   unfold propShape
   split
@@ -167,12 +168,12 @@ theorem shp_withKids (n : Node) (ks : List Node) (hF : Forall2 Shp n.kids ks) : 
         simp only [Forall2] at hF
         simp only [withKids, List.getD_cons_zero, List.getD_cons_succ, tshape]
         exact hF.2.1.2.1 ht
-    · rename_i ssp k2 sp2 n2 p
+    · rename_i ssp sp2 n2 p
       simp only [kids] at hF
       match ks, hF with
       | [sup', p'], hF =>
         simp only [Forall2] at hF
-        have : sup' = .other k2 sp2 n2 [] := hF.1.2.2 rfl
+        have : sup' = .other "Super" sp2 n2 [] := hF.1.2.2 rfl
         subst this
         simp only [withKids, tshape]
         exact hF.2.1.2.1 ht
@@ -194,7 +195,9 @@ theorem shp_withKids (n : Node) (ks : List Node) (hF : Forall2 Shp n.kids ks) : 
       | [e'], _ => rfl
     · rename_i k sp ns' vs hne
       simp only [kids] at hF
-      have := forall2_atoms_eq vs ks hF hp
+      have hp' := hp
+      simp only [Bool.and_eq_true] at hp'
+      have := forall2_atoms_eq vs ks hF hp'.2
       subst this
       exact propShape_other_atoms _ _ _ _ hp
     · cases hp
